@@ -57,7 +57,14 @@ func nameFromKind(kind an.BasicKind) string {
 
 // typeID returns an identifier for `ty`
 // usable in function names
-func typeID(ty an.Type) string {
+func typeID(ty an.Type) string { return typeIDRec(ty, make(gen.Cache)) }
+
+// typeIDRec refuses the recursive named containers (like `type T []T`),
+// which have no finite structural identifier
+func typeIDRec(ty an.Type, seen gen.Cache) string {
+	if seen.Check(ty) {
+		panic(fmt.Sprintf("recursive type %s not handled by the SQL generator", ty.Type()))
+	}
 	switch ty := ty.(type) {
 	case *an.Pointer:
 		panic("pointers not handled by the SQL generator")
@@ -70,11 +77,11 @@ func typeID(ty an.Type) string {
 		if ty.Len >= 0 {
 			as += fmt.Sprintf("%d_", ty.Len)
 		}
-		return as + typeID(ty.Elem)
+		return as + typeIDRec(ty.Elem, seen)
 	case *an.Map:
-		return "map_" + typeID(ty.Elem) // JSON map keys are always strings
+		return "map_" + typeIDRec(ty.Elem, seen) // JSON map keys are always strings
 	case *an.Named: // shortcut to underlying
-		return typeID(ty.Underlying)
+		return typeIDRec(ty.Underlying, seen)
 	case *an.Struct, *an.Enum, *an.Union: // these types are always named
 		return idFromNamed(ty.Type().(*types.Named))
 	default:
